@@ -446,3 +446,53 @@ func VerifH_C20_related() {
 	vAssert(err == nil, "no-error-on-200")
 	vAssert(okData, "exactly-the-response-elements")
 }
+
+// VerifH_C20_notes: the notes endpoints and their options.
+func VerifH_C20_notes() {
+	e := c20Setup()
+	ctx := context.Background()
+	ns := &osm.OSM{}
+	for i := 0; i < vRange("notes", 0, 2); i++ {
+		ns.Notes = append(ns.Notes, &osm.Note{ID: osm.NoteID(i + 1)})
+	}
+	e.model = ns
+	var opts []NotesOption
+	q := ""
+	limit, days := vInt("limit"), vInt("days")
+	vAssume(vAnd(limit >= -5, limit < 20000))
+	vAssume(vAnd(days >= -1, days < 4000))
+	optMode := vRange("options", 0, 3)
+	if optMode&1 != 0 {
+		opts = append(opts, Limit(limit))
+		q += fmt.Sprintf("&limit=%d", limit)
+	}
+	if optMode&2 != 0 {
+		opts = append(opts, MaxDaysClosed(days))
+		q += fmt.Sprintf("&closed=%d", days)
+	}
+	var got osm.Notes
+	var err error
+	path := ""
+	if vRange("search", 0, 1) == 0 {
+		b := &osm.Bounds{MinLat: 1.5, MaxLat: 2.5, MinLon: -3.25, MaxLon: 4}
+		path = fmt.Sprintf("%s/notes", e.base)
+		q = "bbox=-3.250000,1.500000,4.000000,2.500000" + q
+		got, err = e.ds.Notes(ctx, b, opts...)
+	} else {
+		path = fmt.Sprintf("%s/notes/search", e.base)
+		q = "q=spam+%26+eggs" + q
+		got, err = e.ds.NotesSearch(ctx, "spam & eggs", opts...)
+	}
+	vReach("called")
+	if optMode&1 != 0 && (limit < 1 || limit > 10000) {
+		vAssert(err != nil && len(e.urls) == 0 && got == nil, "invalid-limit-rejected-before-any-request")
+		return
+	}
+	if !e.outcome(err, path, q) {
+		vAssert(err != nil, "error-returned")
+		vAssert(len(got) == 0, "no-data-with-error")
+		return
+	}
+	vAssert(err == nil, "no-error-on-200")
+	vAssert(vSame(got, ns.Notes), "exactly-the-response-elements")
+}
